@@ -260,6 +260,7 @@ Proof.
     + rewrite len_app, len_take, len_drop by lia. apply (len_ok_le _ (len xs)); [exact Hlen|lia|apply fixed_flag; exact Ef].
   - (* remove *)
     destruct (_ || _) eqn:Ef; [discriminate|]. apply orb_false_iff in Ef. destruct Ef as [Ef _].
+    destruct (match x, snd f with PStr _, TEnum _ => true | _, _ => false end); [discriminate|].
     destruct (check_scalar (snd f) x) as [v|]; [|discriminate].
     destruct (remove_first v vint_eqb xs) as [r|] eqn:Er; [|discriminate]. intros H. injection H as <-.
     destruct (remove_first_sub _ _ _ _ Er) as [Hlr Hpr]. apply arr_ok_wt. split.
